@@ -343,7 +343,9 @@ func (i *Inst) Abs(s string, hint [][]string) []string {
 
 // NewInst starts the environment and the gateway for cfg.
 func (r *Runner) NewInst(cfg ScriptCfg) (*Inst, error) {
-	in := &Inst{R: r, Cfg: cfg, Sym: map[string]string{}, Backends: map[string]*envx.Backend{}, Users: map[string]string{"nuser1": "npass1-secret", "nuser2": "npass2-secret", "7": "pw-7", "8": "pw-8", "user1": "pw-user1", "slow7": "pw-slow7", "slow8": "pw-slow8", "*": "pw-star"}}
+	in := &Inst{R: r, Cfg: cfg, Sym: map[string]string{}, Backends: map[string]*envx.Backend{}, Users: map[string]string{"nuser1": "npass1-secret", "nuser2": "npass2-secret", "7": "pw-7", "8": "pw-8", "user1": "pw-user1", "slow7": "pw-slow7", "slow8": "pw-slow8", "*": "pw-star",
+		// accounts whose name is qualified with a realm / a domain: the whole string is the name (a different account from the bare one)
+		"7@o.example": "pw-7@o.example", "nuser1@contractors.example": "npass-at-secret", "CONTRACTORS\\nuser1": "npass-bsl-secret"}}
 	ok := false
 	defer func() {
 		if !ok {
